@@ -445,9 +445,9 @@ def ortho_float_U(rng, I, S):
 
 class Prop:
     ID = "C07"
-    LEVEL = "exploration"
-    COQ_HEADER = ""
-    CHECK_FN = ""
+    LEVEL = "proof"
+    COQ_HEADER = "From TN Require Import Harness.H_C07.\nOpen Scope Z_scope.\n"
+    CHECK_FN = "check"
     RULE = ("loss trees over {+,-,unary -,tensor *,scalar * (5 scalar kinds, either side),/scalar,scalar +/-,getitem "
             "(slices, ints, None, Ellipsis, index arrays), partial sum/mean, dot (scalar- and tensor-valued), norm, normsq, "
             "sum, mean, var, dist, full integer indexing, sums/products of such scalars}: 30 fixed templates x the "
@@ -461,7 +461,7 @@ class Prop:
                "the independent dense contraction dense_torch in harness/props/c07.py"]
     ASSUMPTIONS = ["points where the loss is not differentiable (norm or dist of an exactly zero array) are excluded",
                    "tolerance 1e-9 relative to the largest expected gradient entry of the parameter (scalar scaling uses |c|^(1/N))"]
-    THEOREMS = []
+    THEOREMS = ["C07_expr", "C07_add", "C07_mul", "C07_scalar_mul", "C07_scalar_add", "C07_getitem", "C07_dot", "C07_dot_partial", "C07_sum", "C07_wsum"]
 
     # ------------------------------------------------------------------------------------------ cases
     def generate(self, rng, tier):
@@ -836,4 +836,67 @@ class Prop:
                                 json.dumps(case["grad"]), "opt" if "optimize" in case else case.get("api"))
 
     def coq_term(self, case, res):
-        return None
+        """dual-number model (Coq, exact) versus autograd: polynomial losses sum(E) / dot(E1,E2) / normsq(E) with E over
+        + - * unary-, integer scalar * and +; every parameter that requires grad gets a fixed integer direction."""
+        if "optimize" in case or not res.get("ok") or res.get("detached") or res.get("grads") is None:
+            return None
+        from fractions import Fraction
+        def tr(e):
+            op = e[0]
+            if op == "leaf": return "(dLeaf %d)" % e[1]
+            if op in ("add", "sub", "mul"): return "(d%s %s %s)" % (op.capitalize(), tr(e[1]), tr(e[2]))
+            if op == "neg": return "(dNeg %s)" % tr(e[1])
+            if op in ("smul", "sadd"):
+                c = Fraction(*e[1])
+                if c.denominator != 1: raise KeyError("frac")
+                return "(d%s %s %s)" % (op.capitalize(), zlit(int(c)), tr(e[4]))
+            if op in ("rsub", "subs"):
+                c = Fraction(*e[1])
+                if c.denominator != 1: raise KeyError("frac")
+                return "(dRsub %s %s)" % (zlit(int(c)), tr(e[3])) if op == "rsub" else "(dSadd %s %s)" % (zlit(-int(c)), tr(e[3]))
+            raise KeyError(op)
+        e = case["expr"]
+        try:
+            if e[0] == "sum": loss = "LSum %s" % tr(e[1])
+            elif e[0] == "normsq": loss = "LNormsq %s" % tr(e[1])
+            elif e[0] == "dot": loss = "LDot %s %s" % (tr(e[1]), tr(e[2]))
+            else: return None
+        except (KeyError, IndexError, TypeError):
+            return None
+        for tj in case["env"]:
+            for m in tj["modes"]:
+                if not all(float(v).is_integer() for v in flat(m["core"])) or \
+                        (m["U"] is not None and not all(float(v).is_integer() for v in flat(m["U"]))):
+                    return None          # orthonormal (QR) factors are floats: implementation-vs-dense only
+        direction = lambda j, k: ((k * 3 + j * 5 + 1) % 5) - 2
+        j = 0; total = 0.0; tens = []
+        for i, tj in enumerate(case["env"]):
+            mask = case["grad"][i]
+            pj = {}
+            for n in range(len(tj["modes"])):
+                if mask["cores"][n]: pj[("c", n)] = j; j += 1
+            for n, m in enumerate(tj["modes"]):
+                if m["U"] is not None and mask["Us"][n]: pj[("u", n)] = j; j += 1
+            ms = []
+            for n, m in enumerate(tj["modes"]):
+                c = np.array(m["core"]); fl = flat(c)
+                jj = pj.get(("c", n))
+                pairs = "[" + ";".join("(%s,%s)" % (zlit(v), zlit(direction(jj, k) if jj is not None else 0)) for k, v in enumerate(fl)) + "]%Z"
+                core = "(dTT %d %d %d %s)" % (c.shape + (pairs,)) if m["kind"] == "tt" else "(dCP %d %d %s)" % (c.shape + (pairs,))
+                if m["U"] is None:
+                    fac = "None"
+                else:
+                    U = np.array(m["U"]); jj = pj.get(("u", n))
+                    pairs = "[" + ";".join("(%s,%s)" % (zlit(v), zlit(direction(jj, k) if jj is not None else 0)) for k, v in enumerate(flat(U))) + "]%Z"
+                    fac = "(dU %d %d %s)" % (U.shape + (pairs,))
+                ms.append("dM %s %s" % (core, fac))
+            tens.append("[" + "; ".join(ms) + "]")
+        if j != len(res["grads"]):
+            return None
+        for jj, g in enumerate(res["grads"]):
+            if g is not None:
+                total += sum(x * direction(jj, k) for k, x in enumerate(g))
+        val = canon_int(res["loss"]); dv = canon_int(total)
+        if val is None or dv is None:
+            val, dv = 10 ** 9, 10 ** 9
+        return "mkCase [%s] (%s) %s %s" % ("; ".join(tens), loss, zlit(val), zlit(dv))
